@@ -1,5 +1,510 @@
-import Solvor.Search.Model
-/-! Search: property theorems only (helper lemmas live in Lemmas.lean). -/
+import Solvor.Search.PopLemmas
+/-!
+Search: the property theorems of C19 (helper lemmas are in `Lemmas.lean` / `PopLemmas.lean`).
+
+Reading guide.  `f k` is the user's objective at the k-th point the solver evaluated (start points
+first), `coin k` whatever the RNG / `exp` / a user acceptance callback answered for that point, the
+remaining arguments are the limits of the call.  `Faithful m f o` says of an outcome `o`:
+`o.solIdx < o.evaluations` (the returned solution is one of the evaluated points),
+`o.objective = f o.solIdx` (reported objective = user's objective at the returned solution, in the
+user's sign) and `∀ k < o.evaluations, o.objective ≤ f k` (resp. `≥` when maximising): at least
+as good as the start point(s) and as every candidate evaluated.  All theorems hold for *every*
+`f`, `coin`, candidate-move lists and limits – i.e. for every objective function, seed, callback
+and schedule.  Determinism ("same seed ⇒ same result") is by construction: every skeleton is a
+pure function of its arguments.
+-/
 namespace Solvor.Search
+
+/-! ## T-spec: the checkers the driver evaluates on the implementation's own answer -/
+
+/-- `checkResult` decides exactly the R_prop clauses: reported objective = re-evaluated objective,
+no recorded value or start value is better, `evaluations` = number of recorded calls. -/
+theorem checkResult_iff (m : Bool) (fs starts : List Rat) (obj fsol : Rat) (ev : Nat) :
+    checkResult m fs starts obj fsol ev = true ↔
+      obj = fsol ∧ (∀ v ∈ fs ++ starts, if m then obj ≤ v else v ≤ obj) ∧ ev = fs.length := by
+  unfold checkResult
+  simp only [Bool.and_eq_true, decide_eq_true_eq, List.all_eq_true, beq_iff_eq]
+  constructor
+  · rintro ⟨⟨h1, h2⟩, h3⟩
+    refine ⟨h1, fun v hv => ?_, h3⟩
+    have := h2 v hv
+    cases m <;> simpa using this
+  · rintro ⟨h1, h2, h3⟩
+    refine ⟨⟨h1, fun v hv => ?_⟩, h3⟩
+    have := h2 v hv
+    cases m <;> simpa using this
+
+example : checkResult true [5, 3, 7] [5] 3 3 3 = true := by decide +kernel
+example : checkResult false [5, 3, 7] [5] 3 3 3 = false := by decide +kernel
+
+/-- `inBounds` decides "one coordinate per bound, each inside its closed interval". -/
+theorem inBounds_iff : ∀ (bs : List (Rat × Rat)) (x : List Rat),
+    inBounds bs x = true ↔ x.length = bs.length ∧ ∀ p ∈ bs.zip x, p.1.1 ≤ p.2 ∧ p.2 ≤ p.1.2
+  | [], [] => by simp [inBounds]
+  | [], _ :: _ => by simp [inBounds]
+  | _ :: _, [] => by simp [inBounds]
+  | (lo, hi) :: bs, x :: xs => by
+    simp only [inBounds, Bool.and_eq_true, decide_eq_true_eq, inBounds_iff bs xs, List.length_cons,
+      List.zip_cons_cons, List.mem_cons, Nat.add_right_cancel_iff]
+    constructor
+    · rintro ⟨⟨h1, h2⟩, h3, h4⟩
+      refine ⟨h3, ?_⟩
+      rintro p (rfl | hp)
+      · exact ⟨h1, h2⟩
+      · exact h4 p hp
+    · rintro ⟨h3, h4⟩
+      exact ⟨h4 _ (Or.inl rfl), h3, fun p hp => h4 p (Or.inr hp)⟩
+
+example : inBounds [(0, 1), (-2, 2)] [1 / 2, -2] = true := by decide +kernel
+
+/-! ## `Evaluator`: sign handling -/
+
+/-- `to_user` undoes the sign `Evaluator.__call__` applied, for minimise and maximise. -/
+theorem to_user_sign (m : Bool) (x : Rat) : toUser m (internal m (fun _ => x) 0) = x :=
+  toUser_internal m x
+
+example : toUser false (internal false (fun _ => 7) 0) = 7 := to_user_sign false 7
+
+/-- A faithful best-so-far record of the sign-adjusted stream is, after `to_user`, a faithful
+outcome in the user's own sign. -/
+theorem good_to_user {m : Bool} {f : Nat → Rat} {c : Core} (h : Good (internal m f) c) :
+    Faithful m f (c.outcome m) := good_faithful h
+
+/-- C19 `mirror_min_max`: for *any* bookkeeping function of the sign-adjusted stream, maximising
+`f` and minimising `-f` are the same run; the reported objective is negated, the returned
+solution and the evaluation count are the same. -/
+theorem mirror_min_max (run : (Nat → Rat) → Core) (f : Nat → Rat) :
+    (run (internal false f)).outcome false = ((run (internal true (fun k => -f k))).outcome true).neg := by
+  rw [internal_mirror f]; exact outcome_mirror _
+
+/-- `mirror_min_max` instantiated at the nine skeletons. -/
+theorem solvers_mirror_min_max (f : Nat → Rat) (coin : Nat → Bool) (acc : Accept)
+    (a b c : Nat) (tol : Rat) (cands : List (List Nat)) :
+    annealSolve false f coin a = (annealSolve true (fun k => -f k) coin a).neg ∧
+    tabuSolve false f a b c cands = (tabuSolve true (fun k => -f k) a b c cands).neg ∧
+    lnsSolve false false f coin acc a b c = (lnsSolve false true (fun k => -f k) coin acc a b c).neg ∧
+    alnsSolve false f coin acc a b c = (alnsSolve true (fun k => -f k) coin acc a b c).neg ∧
+    evolveSolve false f a b c = (evolveSolve true (fun k => -f k) a b c).neg ∧
+    deSolve false f a b = (deSolve true (fun k => -f k) a b).neg ∧
+    psoSolve false f a b = (psoSolve true (fun k => -f k) a b).neg ∧
+    bayesSolve false f a b = (bayesSolve true (fun k => -f k) a b).neg ∧
+    nmSolve false false f a tol b c = (nmSolve false true (fun k => -f k) a tol b c).neg :=
+  ⟨mirror_min_max (fun v => (annealRun v coin a).core) f,
+   mirror_min_max (fun v => (tabuRun v a b c cands).core) f,
+   mirror_min_max (fun v => (lnsRun false v coin acc a b c).core) f,
+   mirror_min_max (fun v => (alnsRun v coin acc a b c).core) f,
+   mirror_min_max (fun v => (evoRun v a b c).core) f,
+   mirror_min_max (fun v => (deRun v a b).core) f,
+   mirror_min_max (fun v => (psoRun v a b).core) f,
+   mirror_min_max (fun v => bayesRun v a b) f,
+   mirror_min_max (fun v => nmResult false (nmRun v a tol b c)) f⟩
+
+example : annealSolve false (fun k => [5, 3, 7, 2, 9].getD k 0) (fun k => k % 2 == 0) 4
+    = (annealSolve true (fun k => -[5, 3, 7, 2, 9].getD k 0) (fun k => k % 2 == 0) 4).neg :=
+  (solvers_mirror_min_max _ _ .all 4 0 0 0 []).1
+
+/-! ## anneal -/
+
+private theorem annealInv_run (val : Nat → Rat) (coin : Nat → Bool) (iters : Nat) :
+    AnnealInv val (annealRun val coin iters) :=
+  iter_inv _ _ (annealInv_step val coin) iters _ (annealInv_init val)
+
+/-- C19 for `anneal`: although `best` is only looked at inside the accepted branch, the returned
+objective is the user's objective of the returned solution and no evaluated point is better. -/
+theorem anneal_best_is_min_of_evaluated (m : Bool) (f : Nat → Rat) (coin : Nat → Bool) (iters : Nat) :
+    Faithful m f (annealSolve m f coin iters) :=
+  good_faithful (annealInv_run _ coin iters).1
+
+/-- one evaluation for the start point and one per loop body -/
+theorem anneal_evals_eq_calls (m : Bool) (f : Nat → Rat) (coin : Nat → Bool) (iters : Nat) :
+    (annealSolve m f coin iters).evaluations = iters + 1 := by
+  have : ∀ n s, (iter (annealStep (internal m f) coin) n s).core.evals = s.core.evals + n := by
+    intro n
+    induction n with
+    | zero => intro s; rfl
+    | succ n ih => intro s; show (iter _ n (annealStep _ coin s)).core.evals = _
+                   rw [ih, anneal_evals_step]; omega
+  simp only [annealSolve, Core.outcome, annealRun, this]
+  simp [annealInit, Core.init]; omega
+
+-- a worse move (7) is accepted after the best one (3) was found; the best is still returned
+example : annealSolve true (fun k => [5, 3, 7, 9].getD k 0) (fun _ => true) 3 = ⟨3, 1, 4⟩ := by
+  decide +kernel
+
+/-! ## tabu_search -/
+
+/-- C19 for `tabu_search` (aspiration, tabu list, shuffled candidates, every stopping rule). -/
+theorem tabu_best_is_min_of_evaluated (m : Bool) (f : Nat → Rat) (cooldown mni stopAt : Nat)
+    (cands : List (List Nat)) : Faithful m f (tabuSolve m f cooldown mni stopAt cands) :=
+  good_faithful (foldl_inv (fun s => Good _ s.core) _
+    (fun s ms h => tabu_good_step _ cooldown mni stopAt s ms h) cands _ (good_init _))
+
+/-- evaluations = 1 + the sizes of the candidate lists of the iterations that were executed
+(every candidate of an executed iteration is evaluated exactly once, tabu or not). -/
+theorem tabu_evals_eq_calls (m : Bool) (f : Nat → Rat) (cooldown mni stopAt : Nat)
+    (cands : List (List Nat)) :
+    (tabuSolve m f cooldown mni stopAt cands).evaluations =
+      1 + ((cands.take (tabuRun (internal m f) cooldown mni stopAt cands).iteration).map List.length).sum := by
+  let val := internal m f
+  let P : TabuSt → List (List Nat) → Prop := fun s pre =>
+    s.core.evals = 1 + ((pre.take s.iteration).map List.length).sum ∧ s.iteration ≤ pre.length ∧
+    (s.done = false → s.iteration = pre.length)
+  have step : ∀ s pre ms, P s pre → P (tabuStep val cooldown mni stopAt s ms) (pre ++ [ms]) := by
+    intro s pre ms ⟨h1, h2, h3⟩
+    unfold tabuStep
+    split
+    · rename_i hd
+      refine ⟨?_, by simp; omega, fun h => by simp [hd] at h⟩
+      rw [List.take_append_of_le_length h2]; exact h1
+    · rename_i hd
+      have hit := h3 (by simpa using hd)
+      have htake : (pre ++ [ms]).take (s.iteration + 1) = pre ++ [ms] := by
+        rw [hit]; exact List.take_of_length_le (by simp)
+      have hpre : pre.take s.iteration = pre := by rw [hit]; exact List.take_length
+      rw [hpre] at h1
+      simp only
+      split
+      · rename_i hemp
+        have : ms = [] := by simpa using hemp
+        subst this
+        refine ⟨?_, by simp; omega, fun h => by simp at h⟩
+        simp only [htake]; simp [h1]
+      · obtain ⟨he, _⟩ := tabuScan_spec val s.core.best s.tabuSet s.core.evals ms s.core.evals none
+          (Nat.le_refl _) ⟨fun k a b => by omega, fun b i m hb => by simp at hb⟩
+        split
+        · rename_i e heq
+          rw [heq] at he
+          simp only at he
+          refine ⟨?_, by simp; omega, fun h => by simp at h⟩
+          simp only [htake]; simp [h1, he]; omega
+        · rename_i e b i mv heq
+          rw [heq] at he
+          simp only at he
+          refine ⟨?_, by simp; omega, fun _ => by simp [hit]⟩
+          simp only [htake]
+          by_cases hb : b < s.core.best <;> simp [hb, h1, he] <;> omega
+  have run : ∀ rest pre s, P s pre →
+      P (rest.foldl (tabuStep val cooldown mni stopAt) s) (pre ++ rest) := by
+    intro rest
+    induction rest with
+    | nil => intro pre s h; simpa using h
+    | cons ms rest ih =>
+      intro pre s h
+      have := ih (pre ++ [ms]) _ (step s pre ms h)
+      simpa using this
+  have h0 : P (tabuInit val) [] := by simp [P, tabuInit, Core.init]
+  have := (run cands [] _ h0).1
+  simpa [tabuSolve, tabuRun, Core.outcome] using this
+
+-- the tabu move (0) is skipped unless it beats the best (aspiration); best 1 found in round 2
+example : tabuSolve true (fun k => [5, 4, 6, 1, 8].getD k 0) 3 100 0 [[0, 1], [0, 1]] = ⟨1, 3, 5⟩ := by
+  decide +kernel
+
+/-! ## lns / alns -/
+
+private theorem lnsInv_run (val : Nat → Rat) (coin : Nat → Bool) (acc : Accept) (a b c : Nat) :
+    LnsInv val (lnsRun false val coin acc a b c) := by
+  unfold lnsRun
+  exact iter_inv _ _ (lnsInv_step val coin acc b c) a _ (lnsInv_init val)
+
+/-- C19 for `lns` *with the proposed repair C19_lns_best*, for every acceptance rule including
+arbitrary user callbacks. -/
+theorem lns_best_is_min_of_evaluated (m : Bool) (f : Nat → Rat) (coin : Nat → Bool) (acc : Accept)
+    (maxIter mni stopAt : Nat) : Faithful m f (lnsSolve false m f coin acc maxIter mni stopAt) :=
+  good_faithful (lnsInv_run _ coin acc maxIter mni stopAt).1
+
+/-- `lns` as written in the unchanged tree violates C19: a user acceptance callback that refuses
+a candidate (here: always) makes the solver forget a candidate better than what it returns. -/
+theorem lns_unrepaired_loses_best :
+    ∃ (f : Nat → Rat) (coin : Nat → Bool),
+      ¬ Faithful true f (lnsSolve true true f coin .custom 2 100 0) := by
+  refine ⟨fun k => [10, 3, 7].getD k 0, fun _ => false, ?_⟩
+  rintro ⟨_, _, h⟩
+  have := h 1 (by decide +kernel)
+  revert this
+  decide +kernel
+
+-- FULL STATEMENT (not proved, false for the unchanged tree – see `lns_unrepaired_loses_best`):
+--   ∀ m f coin acc maxIter mni stopAt, Faithful m f (lnsSolve true m f coin acc maxIter mni stopAt)
+/-- What the unchanged `lns` does guarantee: C19 holds whenever the acceptance rule never refuses
+a candidate that improves on the *current* solution – in particular for the three built-in rules. -/
+theorem lns_unrepaired_best_is_min_of_evaluated_partial (m : Bool) (f : Nat → Rat) (coin : Nat → Bool)
+    (acc : Accept) (hacc : acc.RespectsImprovement coin (internal m f)) (maxIter mni stopAt : Nat) :
+    Faithful m f (lnsSolve true m f coin acc maxIter mni stopAt) := by
+  have h : LnsInv (internal m f) (lnsRun true (internal m f) coin acc maxIter mni stopAt) := by
+    unfold lnsRun
+    exact iter_inv _ _ (lnsInv_stepOrig _ coin acc mni stopAt hacc) maxIter _ (lnsInv_init _)
+  exact good_faithful h.1
+
+theorem builtin_accept_respects_improvement (acc : Accept) (h : acc ≠ .custom) (coin : Nat → Bool)
+    (val : Nat → Rat) : acc.RespectsImprovement coin val := respects_of_builtin acc h coin val
+
+example : Accept.sa.RespectsImprovement (fun _ => false) (fun k => (k : Rat)) :=
+  builtin_accept_respects_improvement .sa (by decide) _ _
+
+/-- every executed loop body evaluates exactly one candidate -/
+theorem lns_evals_eq_calls (m : Bool) (f : Nat → Rat) (coin : Nat → Bool) (acc : Accept)
+    (maxIter mni stopAt : Nat) :
+    (lnsSolve false m f coin acc maxIter mni stopAt).evaluations =
+      (lnsRun false (internal m f) coin acc maxIter mni stopAt).iteration + 1 :=
+  (lnsInv_run _ coin acc maxIter mni stopAt).2.2
+
+-- the callback refuses everything: the repaired rule still returns the best candidate (3)
+example : lnsSolve false true (fun k => [10, 3, 7].getD k 0) (fun _ => false) .custom 2 100 0 = ⟨3, 1, 3⟩ := by
+  decide +kernel
+
+private theorem alnsInv_run (val : Nat → Rat) (coin : Nat → Bool) (acc : Accept) (a b c : Nat) :
+    LnsInv val (alnsRun val coin acc a b c) :=
+  iter_inv _ _ (alnsInv_step val coin acc b c) a _ (lnsInv_init val)
+
+/-- C19 for `alns`, for every acceptance rule including arbitrary user callbacks. -/
+theorem alns_best_is_min_of_evaluated (m : Bool) (f : Nat → Rat) (coin : Nat → Bool) (acc : Accept)
+    (maxIter mni stopAt : Nat) : Faithful m f (alnsSolve m f coin acc maxIter mni stopAt) :=
+  good_faithful (alnsInv_run _ coin acc maxIter mni stopAt).1
+
+theorem alns_evals_eq_calls (m : Bool) (f : Nat → Rat) (coin : Nat → Bool) (acc : Accept)
+    (maxIter mni stopAt : Nat) :
+    (alnsSolve m f coin acc maxIter mni stopAt).evaluations =
+      (alnsRun (internal m f) coin acc maxIter mni stopAt).iteration + 1 :=
+  (alnsInv_run _ coin acc maxIter mni stopAt).2.2
+
+example : alnsSolve false (fun k => [1, 4, 2, 9, 3].getD k 0) (fun k => k == 2) .custom 4 100 0 = ⟨9, 3, 5⟩ := by
+  decide +kernel
+
+/-! ## evolve -/
+
+private theorem evoInv_run (val : Nat → Rat) (popSize eliteSize : Nat) (hp : 1 ≤ popSize) :
+    ∀ gens, EvoInv val popSize (evoRun val popSize eliteSize gens) ∧
+      (evoRun val popSize eliteSize gens).core.evals = popSize + gens * (popSize - min eliteSize popSize) := by
+  have h0 : (evoInit val popSize).core.evals = popSize := by
+    unfold evoInit; simp only; split <;> rfl
+  have gen : ∀ n s, EvoInv val popSize s →
+      EvoInv val popSize (iter (evoStep val popSize eliteSize) n s) ∧
+      (iter (evoStep val popSize eliteSize) n s).core.evals = s.core.evals + n * (popSize - min eliteSize popSize) := by
+    intro n
+    induction n with
+    | zero => intro s h; exact ⟨h, by simp [iter]⟩
+    | succ n ih =>
+      intro s h
+      obtain ⟨h1, h2⟩ := evoInv_step val popSize eliteSize hp s h
+      obtain ⟨h3, h4⟩ := ih _ h1
+      refine ⟨h3, ?_⟩
+      show (iter _ n (evoStep val popSize eliteSize s)).core.evals = _
+      rw [h4, h2, Nat.succ_mul]; omega
+  intro gens
+  obtain ⟨a, b⟩ := gen gens _ (evoInv_init val popSize hp)
+  exact ⟨a, by rw [evoRun, b, h0]⟩
+
+/-- C19 for `evolve` (non-empty population; elitism of any size, also 0 or larger than the
+population). -/
+theorem evolve_best_is_min_of_evaluated (m : Bool) (f : Nat → Rat) (popSize eliteSize gens : Nat)
+    (hp : 1 ≤ popSize) : Faithful m f (evolveSolve m f popSize eliteSize gens) :=
+  good_faithful (evoInv_run _ popSize eliteSize hp gens).1.1
+
+theorem evolve_evals_eq_calls (m : Bool) (f : Nat → Rat) (popSize eliteSize gens : Nat) (hp : 1 ≤ popSize) :
+    (evolveSolve m f popSize eliteSize gens).evaluations =
+      popSize + gens * (popSize - min eliteSize popSize) :=
+  (evoInv_run _ popSize eliteSize hp gens).2
+
+-- no elitism: the best individual (1, found in generation 1) dies out, the record keeps it
+example : evolveSolve true (fun k => [5, 6, 1, 7, 8, 9].getD k 0) 2 0 2 = ⟨1, 2, 6⟩ := by decide +kernel
+
+/-! ## differential_evolution / particle_swarm / bayesian_opt -/
+
+private theorem deInv_run (val : Nat → Rat) (n : Nat) (hn : 1 ≤ n) :
+    ∀ gens, PopStInv val n (deRun val n gens) ∧ (deRun val n gens).core.evals = n + gens * n := by
+  have gen : ∀ g s, PopStInv val n s → PopStInv val n (iter (deStep val) g s) ∧
+      (iter (deStep val) g s).core.evals = s.core.evals + g * n := by
+    intro g
+    induction g with
+    | zero => intro s h; exact ⟨h, by simp [iter]⟩
+    | succ g ih =>
+      intro s ⟨hpi, hl⟩
+      obtain ⟨i1, _, i3, i4⟩ := deSweep_inv val s.fits s.core hpi
+      obtain ⟨h3, h4⟩ := ih (deStep val s) ⟨i1, by simpa [deStep, hl] using i4⟩
+      refine ⟨h3, ?_⟩
+      show (iter _ g (deStep val s)).core.evals = _
+      rw [h4]; simp only [deStep]; rw [i3, hl, Nat.succ_mul]; omega
+  intro gens
+  obtain ⟨a, b⟩ := gen gens _ (popInv_init val n hn)
+  exact ⟨a, by rw [deRun, b]; simp [popInit, startCore_evals val n hn]⟩
+
+/-- C19 for `differential_evolution` (greedy `<=` replacement with the nested best update). -/
+theorem de_best_is_min_of_evaluated (m : Bool) (f : Nat → Rat) (popSize gens : Nat) (hp : 1 ≤ popSize) :
+    Faithful m f (deSolve m f popSize gens) :=
+  good_faithful (deInv_run _ popSize hp gens).1.1.1
+
+theorem de_evals_eq_calls (m : Bool) (f : Nat → Rat) (popSize gens : Nat) (hp : 1 ≤ popSize) :
+    (deSolve m f popSize gens).evaluations = popSize + gens * popSize :=
+  (deInv_run _ popSize hp gens).2
+
+example : deSolve true (fun k => [5, 4, 6, 7, 4, 1, 9, 9].getD k 0) 4 1 = ⟨1, 5, 8⟩ := by decide +kernel
+
+private theorem psoInv_run (val : Nat → Rat) (n : Nat) (hn : 1 ≤ n) :
+    ∀ its, PopStInv val n (psoRun val n its) ∧ (psoRun val n its).core.evals = n + its * n := by
+  have gen : ∀ g s, PopStInv val n s → PopStInv val n (iter (psoStep val) g s) ∧
+      (iter (psoStep val) g s).core.evals = s.core.evals + g * n := by
+    intro g
+    induction g with
+    | zero => intro s h; exact ⟨h, by simp [iter]⟩
+    | succ g ih =>
+      intro s ⟨hpi, hl⟩
+      obtain ⟨i1, _, i3, i4⟩ := psoSweep_inv val s.fits s.core hpi
+      obtain ⟨h3, h4⟩ := ih (psoStep val s) ⟨i1, by simpa [psoStep, hl] using i4⟩
+      refine ⟨h3, ?_⟩
+      show (iter _ g (psoStep val s)).core.evals = _
+      rw [h4]; simp only [psoStep]; rw [i3, hl, Nat.succ_mul]; omega
+  intro its
+  obtain ⟨a, b⟩ := gen its _ (popInv_init val n hn)
+  exact ⟨a, by rw [psoRun, b]; simp [popInit, startCore_evals val n hn]⟩
+
+/-- C19 for `particle_swarm` (global best nested inside the personal-best update). -/
+theorem pso_best_is_min_of_evaluated (m : Bool) (f : Nat → Rat) (nParticles iters : Nat) (hp : 1 ≤ nParticles) :
+    Faithful m f (psoSolve m f nParticles iters) :=
+  good_faithful (psoInv_run _ nParticles hp iters).1.1.1
+
+theorem pso_evals_eq_calls (m : Bool) (f : Nat → Rat) (nParticles iters : Nat) (hp : 1 ≤ nParticles) :
+    (psoSolve m f nParticles iters).evaluations = nParticles + iters * nParticles :=
+  (psoInv_run _ nParticles hp iters).2
+
+example : psoSolve false (fun k => [5, 4, 6, 3].getD k 0) 2 1 = ⟨6, 2, 4⟩ := by decide +kernel
+
+/-- C19 for `bayesian_opt`. -/
+theorem bayes_best_is_min_of_evaluated (m : Bool) (f : Nat → Rat) (nInitial iters : Nat) :
+    Faithful m f (bayesSolve m f nInitial iters) :=
+  good_faithful (good_iter_obs _ iters _ (good_startCore _ nInitial))
+
+theorem bayes_evals_eq_calls (m : Bool) (f : Nat → Rat) (nInitial iters : Nat) (hn : 1 ≤ nInitial) :
+    (bayesSolve m f nInitial iters).evaluations = nInitial + iters := by
+  simp [bayesSolve, Core.outcome, bayesRun, evals_iter_obs, startCore_evals _ nInitial hn]
+
+example : bayesSolve true (fun k => [5, 4, 6, 3, 8].getD k 0) 2 3 = ⟨3, 3, 5⟩ := by decide +kernel
+
+/-! ## nelder_mead -/
+
+private theorem nmInv_run (val : Nat → Rat) (n : Nat) (hn : 1 ≤ n) (tol : Rat) (maxIter stopAt : Nat) :
+    NmInv val n (nmRun val n tol maxIter stopAt) :=
+  iter_inv _ _ (fun s h => (nmInv_step val n hn tol stopAt s h).1) maxIter _ (nmInv_init val n)
+
+/-- C19 for `nelder_mead` *with the proposed repair C19_nm_stop* (reflection, expansion, both
+contractions, shrink, convergence exit, `on_progress` exit, final arg-min). -/
+theorem nm_best_is_min_of_evaluated (m : Bool) (f : Nat → Rat) (n : Nat) (hn : 1 ≤ n) (tol : Rat)
+    (maxIter stopAt : Nat) : Faithful m f (nmSolve false m f n tol maxIter stopAt) :=
+  good_faithful (nmResult_good _ n _ (nmInv_run _ n hn tol maxIter stopAt))
+
+/-- `nelder_mead` as written in the unchanged tree violates C19 when `on_progress` stops it: it
+returns `simplex[0]` of the not yet re-sorted simplex (14) although the expansion point just
+evaluated (9) is better. -/
+theorem nm_unrepaired_stop_is_stale :
+    ∃ (f : Nat → Rat), ¬ Faithful true f (nmSolve true true f 2 (1 / 1000000) 1000 1) := by
+  refine ⟨fun k => [16, 14, 18, 12, 9].getD k 0, ?_⟩
+  rintro ⟨_, _, h⟩
+  have := h 4 (by decide +kernel)
+  revert this
+  decide +kernel
+
+-- FULL STATEMENT (not proved, false for the unchanged tree – see `nm_unrepaired_stop_is_stale`):
+--   ∀ m f n tol maxIter stopAt, 1 ≤ n → Faithful m f (nmSolve true m f n tol maxIter stopAt)
+/-- What the unchanged `nelder_mead` does guarantee: C19 whenever `on_progress` never stops it. -/
+theorem nm_unrepaired_best_is_min_of_evaluated_partial (m : Bool) (f : Nat → Rat) (n : Nat) (hn : 1 ≤ n)
+    (tol : Rat) (maxIter : Nat) : Faithful m f (nmSolve true m f n tol maxIter 0) := by
+  have hst : ∀ k s, s.stopped = false → (iter (nmStep (internal m f) n tol 0) k s).stopped = false := by
+    intro k
+    induction k with
+    | zero => intro s h; exact h
+    | succ k ih =>
+      intro s h
+      refine ih _ ?_
+      unfold nmStep
+      split
+      · exact h
+      · simp only; split
+        · exact h
+        · simp
+  have : (nmRun (internal m f) n tol maxIter 0).stopped = false := hst _ _ rfl
+  have heq : nmResult true (nmRun (internal m f) n tol maxIter 0) = nmResult false (nmRun (internal m f) n tol maxIter 0) := by
+    simp [nmResult, this]
+  unfold nmSolve
+  rw [heq]
+  exact nm_best_is_min_of_evaluated m f n hn tol maxIter 0
+
+/-- the evaluation counter never decreases and starts at the `n+1` vertices of the first simplex;
+each loop body costs 1 (reflection), 2 (expansion / contraction) or `n+2` (shrink) evaluations -/
+theorem nm_evals_eq_calls (val : Nat → Rat) (n : Nat) (sorted : List Ind) (e : Nat) :
+    (nmBody val n sorted e).2 = e + 1 ∨ (nmBody val n sorted e).2 = e + 2 ∨
+      (nmBody val n sorted e).2 = e + 2 + n := by
+  unfold nmBody
+  simp only
+  split
+  · left; rfl
+  · split
+    · split <;> (right; left; rfl)
+    · split
+      · split
+        · right; left; rfl
+        · right; right; rfl
+      · split
+        · right; left; rfl
+        · right; right; rfl
+
+/-- the counter starts at the `n+1` vertices of the first simplex and never decreases -/
+theorem nm_evals_ge_start (val : Nat → Rat) (n : Nat) (hn : 1 ≤ n) (tol : Rat) (maxIter stopAt : Nat) :
+    n + 1 ≤ (nmRun val n tol maxIter stopAt).evals := by
+  have gen : ∀ k s, NmInv val n s → n + 1 ≤ s.evals → n + 1 ≤ (iter (nmStep val n tol stopAt) k s).evals := by
+    intro k
+    induction k with
+    | zero => intro s _ h; exact h
+    | succ k ih =>
+      intro s hi h
+      obtain ⟨h1, h2⟩ := nmInv_step val n hn tol stopAt s hi
+      exact ih _ h1 (by omega)
+  exact gen maxIter _ (nmInv_init val n) (by simp [nmInit])
+
+-- expansion then stop: the repaired exit returns the expansion point
+example : nmSolve false true (fun k => [16, 14, 18, 12, 9].getD k 0) 2 (1 / 1000000) 1000 1 = ⟨9, 4, 5⟩ := by
+  decide +kernel
+
+/-! ## bounds -/
+
+/-- C19 `clip_in_bounds`: clipping puts every coordinate inside its (non-empty) interval. -/
+theorem clip_in_bounds : ∀ (bs : List (Rat × Rat)) (x : List Rat), (∀ b ∈ bs, b.1 ≤ b.2) →
+    x.length = bs.length → inBounds bs (clip bs x) = true
+  | [], [], _, _ => rfl
+  | [], _ :: _, _, h => by simp at h
+  | _ :: _, [], _, h => by simp at h
+  | (lo, hi) :: bs, x :: xs, hb, hl => by
+    have h1 : lo ≤ hi := hb (lo, hi) List.mem_cons_self
+    have ih := clip_in_bounds bs xs (fun b hb' => hb b (List.mem_cons_of_mem _ hb')) (by simpa using hl)
+    simp only [clip, inBounds, ih, Bool.and_true, Bool.and_eq_true, decide_eq_true_eq]
+    constructor <;> grind
+
+/-- a point inside the bounds is left unchanged by `clip` -/
+theorem clip_of_inBounds : ∀ (bs : List (Rat × Rat)) (x : List Rat), inBounds bs x = true → clip bs x = x
+  | [], [], _ => rfl
+  | [], _ :: _, h => by simp [inBounds] at h
+  | _ :: _, [], h => by simp [inBounds] at h
+  | (lo, hi) :: bs, x :: xs, h => by
+    simp only [inBounds, Bool.and_eq_true, decide_eq_true_eq] at h
+    simp only [clip, clip_of_inBounds bs xs h.2, List.cons.injEq, and_true]
+    grind
+
+/-- DE's trial vector: a coordinate-wise mix of two in-bounds points is in bounds. -/
+theorem mix_in_bounds : ∀ (bs : List (Rat × Rat)) (cs : List Bool) (a b : List Rat),
+    cs.length = bs.length → inBounds bs a = true → inBounds bs b = true → inBounds bs (mix cs a b) = true
+  | [], [], [], [], _, _, _ => rfl
+  | [], _, _ :: _, _, _, h, _ => by simp [inBounds] at h
+  | [], _, [], _ :: _, _, _, h => by simp [inBounds] at h
+  | [], _ :: _, _, _, h, _, _ => by simp at h
+  | _ :: _, [], _, _, h, _, _ => by simp at h
+  | _ :: _, _, [], _, _, h, _ => by simp [inBounds] at h
+  | _ :: _, _, _ :: _, [], _, _, h => by simp [inBounds] at h
+  | (lo, hi) :: bs, c :: cs, a :: as, b :: bs', hl, ha, hb => by
+    simp only [inBounds, Bool.and_eq_true, decide_eq_true_eq] at ha hb
+    have ih := mix_in_bounds bs cs as bs' (by simpa using hl) ha.2 hb.2
+    simp only [mix, inBounds, ih, Bool.and_true, Bool.and_eq_true, decide_eq_true_eq]
+    cases c <;> simp <;> grind
+
+example : inBounds [(0, 1), (-2, 2)] (clip [(0, 1), (-2, 2)] [7, -5]) = true :=
+  clip_in_bounds _ _ (by decide +kernel) rfl
 
 end Solvor.Search
